@@ -20,7 +20,17 @@ pub struct Case {
 pub fn gen_case(t: &mut Tape, tier: Tier) -> Option<Case> {
     let mut g = gen::gen_any_graph(t, tier);
     let pushed = if t.bool() { gen::push_to_boundary(t, &mut g) } else { None };
-    if t.chance(0.06) {
+    if t.chance(0.02) {
+        // the far ends of "positive finite": 1e16 .. 1e300 and 1e-16 .. 1e-300 (J = sum of products of 1/omega leaves
+        // the f64 range there; recorded as a known finding, see known_findings.json)
+        let k = t.range(16, 300) as i32 * if t.bool() { 1 } else { -1 };
+        for w in g.weights.iter_mut() {
+            *w *= 10f64.powi(k);
+            if !(w.is_finite() && *w > 0.0) {
+                *w = if k > 0 { 1e300 } else { 1e-300 };
+            }
+        }
+    } else if t.chance(0.06) {
         // weights of very different magnitude (all positive and finite, as the property demands)
         let k = t.range(0, 18) as i32 - 6;
         let ne_ = g.nedges();
@@ -77,9 +87,11 @@ fn check_d<const D: usize>(c: &Case, ctx: &mut Ctx) -> Result<(), Failure> {
                     Err(e) => fail!("table-unreadable", "{e}"),
                 };
                 if must_ok {
+                    let extreme = g.weights.iter().any(|w| *w > 1e15 || *w < 1e-15);
                     for (m, e) in tab.entries.iter().enumerate() {
                         if !(e.j.is_finite() && e.j > 0.0) {
-                            fail!("j-not-finite-positive", "accepted graph has J({m:#b})={} for {g:?}", e.j);
+                            let sig = if extreme { "j-not-finite-positive:weights-beyond-1e+-15" } else { "j-not-finite-positive" };
+                            fail!(sig, "accepted graph has J({m:#b})={} for {g:?}", e.j);
                         }
                     }
                 }
